@@ -35,8 +35,10 @@ def _recurrences():
         excl.append(r + '!3')
         excl.append(r + '!(1,5)')
         excl.append(r + '!P2')
-    excl += ['R1/3!3', 'R1/1!1', 'R1!1', 'R1/5!(5,6)', 'R1//8!8', 'R1/+P2!3']
-    return base + excl
+    excl += ['R1/3!3', 'R1/1!1', 'R1!1', 'R1/5!(5,6)', 'R1//8!8', 'R1/+P2!3',
+             'P2!1', 'P1!(1,2)', 'P3!(1,4)', 'P2!(1,3)', 'P1!P2', '1/P1!1', 'P2/9!9', 'R3/1/P2!5']
+    # exclusions first: the rarest shapes must not be cut off by the candidate limit
+    return excl + base
 
 
 CONTEXTS = [('1', None), ('1', '10'), ('0', '20'), ('2', '6'), ('5', '9'), ('3', '3'), ('9', '5')]
@@ -58,7 +60,7 @@ def _pt(v):
     return IntegerPoint(str(v))
 
 
-def conc_query(with_point=True, limit=6000):
+def conc_query(with_point=True, limit=30000):
     """Candidates for the query methods: every catalog sequence that the real
     constructor accepts, with points around its range."""
     def hook(model, oname):
@@ -75,7 +77,7 @@ def conc_query(with_point=True, limit=6000):
                 yield (dict(recurrence=rec, icp=icp, fcp=fcp),
                        (lambda rec=rec, icp=icp, fcp=fcp: ([_mkseq(rec, icp, fcp)], {})))
                 continue
-            for x in sorted(set(list(range(-4, 26)) + extra[:4])):
+            for x in sorted(set(list(range(-3, 16)) + extra[:4])):
                 n += 1
                 if n > limit:
                     return
